@@ -14,6 +14,7 @@ typedef unsigned long V_limb;
 
 /* ghost position(s) chosen by the caller / harness before a call, and ghost carries */
 long   gk;            /* position inside the operand, 0 <= gk < n */
+V_limb g2_ci, g2_co;  /* the same at the second position gj, for contracts that deliver two positions (linked: gj == gk+1 ==> g2_ci == g_co) */
 V_limb g_ci, g_co;    /* carry/borrow at the head of iteration gk and gk+1 (== return at gk == n-1) */
 static const V_limb g_zero = 0; /* never assigned: reads as 0; target of V_OLDSEL when the position does not exist */
 /* value *(p) had on entry if c held on entry, else 0 */
